@@ -85,6 +85,8 @@ class Contract:
     doc = ''
     shards = 1                 # >1: the setup cases are distributed over that many worker processes
     tier = 'quick'             # 'thorough': verified only in the thorough tier (slow obligations)
+    nested = None              # name of a function defined INSIDE fn: the contract is about that inner function; its free
+    #                            variables come from closure(cx) during its proof, call sites inside fn use the summary
 
     def __init__(self):
         raw = None
@@ -96,6 +98,12 @@ class Contract:
             raw = raw.__func__
         self.fn = raw                     # instance attribute: the plain function object, not a bound method
         self.name = f'{raw.__module__}.{raw.__qualname__}' if raw is not None else type(self).__name__
+        if self.nested:
+            self.nested_qualname = f'{raw.__qualname__}.<locals>.{self.nested}'
+            self.name = f'{raw.__module__}.{self.nested_qualname}'
+
+    def closure(self, cx):
+        return {}
 
     # -- clauses (override)
     def setup(self, cx):
@@ -128,20 +136,36 @@ class Contract:
 class Registry:
     def __init__(self):
         self.by_fn = {}
+        self.by_nested = {}
         self.under_proof = None
         self.opaque_handlers = {}
         self.all = []
 
     def add(self, c):
-        self.by_fn[c.fn] = c
+        if c.nested:
+            self.by_nested[c.nested_qualname] = c
+        else:
+            cs = self.by_fn.setdefault(c.fn, [])
+            cs.append(c)
+            # contracts that restrict their own call sites (use_contract_at overridden) are asked first
+            cs.sort(key=lambda k: type(k).use_contract_at is Contract.use_contract_at)
         self.all.append(c)
         return c
 
     def lookup(self, fn):
+        """the verified (else the first) contract of fn"""
+        cs = self.candidates(fn)
+        for c in cs:
+            if not c.assumed:
+                return c
+        return cs[0] if cs else None
+
+    def candidates(self, fn):
+        """every contract registered for fn; a call site uses the first one whose use_contract_at accepts the arguments"""
         try:
-            return self.by_fn.get(fn)
+            return self.by_fn.get(fn, [])
         except TypeError:
-            return None
+            return []
 
     def opaque_attr(self, obj, name):
         h = self.opaque_handlers.get(obj.typ)
@@ -175,12 +199,15 @@ def apply_contract(it, c, fn, args, kwargs, node):
 
 def _apply(it, c, fn, args, kwargs, node):
     run = it.run
-    try:
-        p = bind_params(fn, args, kwargs)
-    except TypeError as e:
-        it.raise_(TypeError, str(e), node=node)
+    if c.nested:
+        p = it.bind(fn, args, kwargs, node)          # fn is the InterpFunction of the inner def
+    else:
+        try:
+            p = bind_params(fn, args, kwargs)
+        except TypeError as e:
+            it.raise_(TypeError, str(e), node=node)
     cx = Ctx(it, run.heap)
-    site = f'{it.where()}#call[{fn.__qualname__}@L{getattr(node, "lineno", 0)}]'
+    site = f'{it.where()}#call[{c.nested_qualname if c.nested else fn.__qualname__}@L{getattr(node, "lineno", 0)}]'
     it.called_contracts.add(c.name)
     if hasattr(c, 'apply_at'):
         return c.apply_at(cx, p, node, site)
@@ -193,9 +220,10 @@ def _apply(it, c, fn, args, kwargs, node):
     options = [('normal', c.normal_when(cx, **p))]
     for ecls, cond in c.raises.items():
         options.append((ecls, cond(cx, **p)))
-    tag = run.choose(options, f'call {fn.__name__}')
+    short = c.nested if c.nested else fn.__name__
+    tag = run.choose(options, f'call {short}')
     if tag != 'normal':
-        raise PyExc(tag, (f'raised by {fn.__qualname__} (contract)',), getattr(node, 'lineno', None), it.where())
+        raise PyExc(tag, (f'raised by {c.nested_qualname if c.nested else fn.__qualname__} (contract)',), getattr(node, 'lineno', None), it.where())
     res = c.result(cx, **p)
     for label, t in getattr(c, 'post_assumed', c.post)(cx, res, **p).items():
         if t is False:
